@@ -907,7 +907,7 @@ def _values_in_units(values, units):
     return values
 
 
-def diff_helper(func, arr, *args, **kwargs):
+def _diff_units(arr):
     u = getattr(arr, "units", NULL_UNIT)
     if u.dimensions == temperature:
         if u.base_offset:
@@ -917,9 +917,12 @@ def diff_helper(func, arr, *args, **kwargs):
             )
         # K (and any other unit equal to it) differences are reported in delta_degC,
         # other offset-free temperature units (R, mK, delta_degF ...) keep their scale
-        ret_units = delta_degC if u == delta_degC else u
-    else:
-        ret_units = u
+        return delta_degC if u == delta_degC else u
+    return u
+
+
+def diff_helper(func, arr, *args, **kwargs):
+    ret_units = _diff_units(arr)
     return func._implementation(np.asarray(arr), *args, **kwargs) * ret_units
 
 
@@ -930,6 +933,10 @@ def diff(a, *args, **kwargs):
 
 @implements(np.ediff1d)
 def ediff1d(ary, *args, **kwargs):
+    # to_end / to_begin are joined to the differences: same units as the result
+    ret_units = _diff_units(ary)
+    args = tuple(_values_in_units(v, ret_units) for v in args)
+    kwargs = {k: _values_in_units(v, ret_units) for k, v in kwargs.items()}
     return diff_helper(np.ediff1d, ary, *args, **kwargs)
 
 
